@@ -20,7 +20,7 @@ import time
 VERIF = os.path.dirname(os.path.dirname(os.path.abspath(__file__)))
 REPO = os.environ.get('VERIF_REPO', '/repo')
 PY = os.path.join(VERIF, '.venv', 'bin', 'python')
-WORK = os.path.join(VERIF, 'work')
+WORK = os.environ.get('VERIF_WORK_DIR') or os.path.join(VERIF, 'work')
 NPROC = int(os.environ.get('VERIF_JOBS', '16'))
 
 
@@ -340,7 +340,8 @@ def main(argv):
 
 
 def write_evidence(prop, tier, seed, rows, extra, wall, nviol, assumptions, total=(0, 0)):
-    os.makedirs(os.path.join(VERIF, 'evidence'), exist_ok=True)
+    evdir = os.environ.get('VERIF_EVIDENCE_DIR') or os.path.join(VERIF, 'evidence')
+    os.makedirs(evdir, exist_ok=True)
     cov = {
         'evaluations': int(total[0]),
         'distinct_nontrivial': int(total[1]),
@@ -355,7 +356,7 @@ def write_evidence(prop, tier, seed, rows, extra, wall, nviol, assumptions, tota
     ev = {'property_id': prop, 'tier': tier if tier in ('quick', 'thorough') else 'quick', 'seed': seed,
           'level': 'model_checking', 'coverage': cov, 'assumptions': assumptions,
           'wall_s': round(wall, 2), 'violations': nviol}
-    with open(os.path.join(VERIF, 'evidence', prop + '.json'), 'w') as f:
+    with open(os.path.join(evdir, prop + '.json'), 'w') as f:
         json.dump(ev, f, indent=1, default=str)
 
 
